@@ -228,12 +228,13 @@ impl Bundle {
         self.canonicals
             .sort_by(|a, b| b.block_number.cmp(&a.block_number));
     }
-    fn next_canonical_block_number(&self) -> u64 {
+    fn next_canonical_block_number(&self) -> Option<u64> {
         let mut highest_block_number = 1;
         for c in self.canonicals.iter() {
             highest_block_number = cmp::max(highest_block_number, c.block_number);
         }
-        highest_block_number + 1
+        // None once the block numbers are exhausted
+        highest_block_number.checked_add(1)
     }
 
     /// Automatically assign a block number and add canonical block to bundle
@@ -249,8 +250,10 @@ impl Bundle {
         }
         let block_num = if cblock.block_type == PAYLOAD_BLOCK {
             crate::canonical::PAYLOAD_BLOCK_NUMBER
+        } else if let Some(next) = self.next_canonical_block_number() {
+            next
         } else {
-            self.next_canonical_block_number()
+            return;
         };
         cblock.block_number = block_num;
         self.canonicals.push(cblock);
